@@ -21,6 +21,7 @@ PickFam == /\ st[1] = "init"
               \/ \E k \in JudgedKinds : \E s \in SitesFor(k, Thorough) : st' = <<"K", k, s, 0>>
               \/ \E r \in {"module", "submodule"}, part \in {"base", "rev", "ext"}, ch \in 0..3 : st' = <<"O", r, part, ch>>
               \/ \E k \in JudgedKinds : st' = <<"W", k, OneSite(k), 0>>
+              \/ \E k \in KwKinds : \E s \in SitesOf(k) : st' = <<"E", k, s, 0>>
 PickCard == st[1] = "P" /\ \E C \in ExtOrKw : \E n \in CardCounts(st[2], C, MaxCount) : st' = <<"card", st[2], C, n>>
 PickArg == st[1] = "K" /\ \E a \in Cands(st[2]) : st' = <<"arg", st[2], st[3], a>>
 OrderSet(root, part) == IF part = "base" THEN OrderTrees(root) \cup RevTrees(root)
@@ -29,8 +30,11 @@ OrderSet(root, part) == IF part = "base" THEN OrderTrees(root) \cup RevTrees(roo
 PickOrder == st[1] = "O" /\ \E t \in {x \in OrderSet(st[2], st[3]) : Len(x.subs) % 4 = st[4]} : st' = <<"order", st[2], t, 0>>
 PickWs == st[1] = "W" /\ \E a \in WsCands(st[2]) \cup GramCands(st[2], Thorough) \cup (IF Thorough \/ st[2] = "identifier" THEN ByteCands(st[2], Thorough) ELSE {}) :
                          st' = <<"arg", st[2], st[3], a>>
+PickUnder == \/ st[1] = "init" /\ \E k \in KwKinds : \E w \in KwStmts(k) : \E P \in KwParents(w) : st' = <<"U", k, <<w, P>>, 0>>
+             \/ st[1] = "U" /\ \E a \in KwCore(st[2], Thorough) : st' = <<"argin", st[2], st[3], a>>
+PickKw == st[1] = "E" /\ \E a \in KwCands(st[2], Thorough) : st' = <<"arg", st[2], st[3], a>>
 PickExt == st[1] = "init" /\ \E e \in ExtNames : \E x \in ExtCells(e), n \in 0..2 : st' = <<"X", e, x, n>>
-MCNext == PickExt \/ PickFam \/ PickCard \/ PickArg \/ PickOrder \/ PickWs
+MCNext == PickExt \/ PickFam \/ PickCard \/ PickArg \/ PickOrder \/ PickWs \/ PickKw \/ PickUnder
 
 TablesOK == TableWellFormed /\ EveryKeywordPlaced
 
@@ -78,6 +82,24 @@ InterleaveNeutralB ==
 OddWsRejectedB ==
   st[1] = "arg" /\ (\E i \in 1..Len(st[4]) : SubSeq(st[4], i, i) = "~" /\ i < Len(st[4]) /\ SubSeq(st[4], i, i + 1) \in OddWs)
     => ArgVerdict(st[2], st[4]) # "valid"
+\* closed lists: of the candidates built from the legal values, exactly the legal values are valid, nothing is unjudged
+KwExactB ==
+  st[1] = "arg" /\ st[2] \in EnumKinds =>
+    /\ EnumValues(st[2]) # {}
+    /\ ArgVerdict(st[2], st[4]) = (IF \E v \in EnumValues(st[2]) : v = st[4] THEN "valid" ELSE "invalid")
+\* the tree built for a closed-list argument under parent P violates nothing but that argument, and iff it is no legal value
+ArgUnderMinimalB ==
+  st[1] = "argin" =>
+    LET k == st[2]  w == st[3][1]  P == st[3][2]  a == st[4]
+        X == ArgUnder(P, w, a)
+        t == ArgUnderTree(P, w, a)
+        v == AllViol(t)
+        av == ArgVerdict(k, a) IN
+    /\ (IF P \in {DevId(d) : d \in DeviateKinds} THEN X.kw = "deviate" ELSE X.kw = P) /\ Count(X, w) = 1
+    /\ \A f \in v : f.kind = "argument" /\ f.kw = w /\ f.judged
+    /\ (av = "valid" <=> v = {})
+    /\ (av = "invalid" <=> ExpectOf(v).verdict = "reject")
+    /\ ArgKind(w, X.kw) = k
 \* extension cardinalities: the tree built for cell (p, c, n) of function e violates only cells of e, and cell (p, c) iff n is out of its range
 RECURSIVE StmtKwAt(_, _)
 StmtKwAt(t, path) == IF path = << >> THEN t.kw ELSE StmtKwAt(t.subs[Head(path)], Tail(path))
@@ -110,5 +132,7 @@ ExtAnywhere == ExtAnywhereB \/ (PrintT(<<"MCFAIL", "ExtAnywhere", st>>) /\ FALSE
 InterleaveNeutral == InterleaveNeutralB \/ (PrintT(<<"MCFAIL", "InterleaveNeutral", st>>) /\ FALSE)
 OddWsRejected == OddWsRejectedB \/ (PrintT(<<"MCFAIL", "OddWsRejected", st>>) /\ FALSE)
 ExtMinimal == ExtMinimalB \/ (PrintT(<<"MCFAIL", "ExtMinimal", st>>) /\ FALSE)
+KwExact == KwExactB \/ (PrintT(<<"MCFAIL", "KwExact", st>>) /\ FALSE)
+ArgUnderMinimal == ArgUnderMinimalB \/ (PrintT(<<"MCFAIL", "ArgUnderMinimal", st>>) /\ FALSE)
 BigConsistent == BigConsistentB \/ (PrintT(<<"MCFAIL", "BigConsistent", st>>) /\ FALSE)
 =============================================================================
